@@ -28,6 +28,8 @@ def run(rep):
     dtchecks.numeric_vjp(rep, fnd, "C06", rep.tier)
     from .. import scalechecks
     scalechecks.dtcwt(rep, "C06", rep.tier, "vjp")          # large inputs (size thresholds)
+    from .. import autogradchecks
+    autogradchecks.regimes(rep, "C06", autogradchecks.dtcwt_cases(), "C06: two calls before one backward, second backward, unused outputs")
     rep.assumptions += ["the identities of the shipped tables (C18) are the premise of adjointness; user-supplied filters "
                         "that violate them are outside the property"]
 
